@@ -641,6 +641,100 @@ Section ScanProofs.
     pose proof (B (fun p => negb (mem_path p (ss_cached st)))). pose proof (B (fun p => negb (mem_path p (ss_plugin st)))). lia.
   Qed.
 
+  (** ** phases 2 and 3 establish the hypotheses of the closure theorems *)
+  Record phase_ok (st : sst) : Prop := {
+    po_exist : forall q, In q (ss_cached st) -> file_exists q = true;
+    po_plugin_cached : forall q, In q (ss_plugin st) -> In q (ss_cached st);
+    po_seed : forall q, In q (ss_cached st) ->
+                        (match q with n :: _ => is_test_file_name n | [] => false end) = true \/ In q (ss_plugin st) }.
+
+  Lemma file_exists_in q : In q (map fst fd) -> file_exists q = true.
+  Proof.
+    intros H. apply in_map_iff in H as [[k v] [Hk Hin]]. cbn [fst] in Hk. subst k.
+    unfold ScanModel.file_exists, ahas. apply existsb_exists. exists (q, v). split; [exact Hin|apply path_eqb_refl].
+  Qed.
+
+  Lemma mark_analyse_ok p st : file_exists p = true -> phase_ok st -> phase_ok (analyse p (mark p st)).
+  Proof.
+    intros Hp [H1 H2 H3]. unfold ScanModel.analyse. rewrite Hp. unfold mark. cbn [ss_cached ss_plugin]. constructor; cbn [ss_cached ss_plugin].
+    - intros q Hq. apply add_path_in in Hq as [->|Hq]; [exact Hp|now apply H1].
+    - intros q Hq. apply add_path_in. apply add_path_in in Hq as [->|Hq]; [now left|right; now apply H2].
+    - intros q Hq. apply add_path_in in Hq as [->|Hq]; [right; apply add_path_in; now left|].
+      destruct (H3 q Hq) as [H|H]; [now left|right; apply add_path_in; now right].
+  Qed.
+  Lemma scan_plugin_dir_ok dir st : phase_ok st -> phase_ok (scan_plugin_dir fd dir st).
+  Proof.
+    unfold scan_plugin_dir. assert (G : forall l, (forall p, In p l -> file_exists p = true) -> forall st0, phase_ok st0 ->
+      phase_ok (fold_left (fun st1 p => analyse p (mark p st1)) l st0)).
+    { induction l as [|p l IH]; intros Hl st0 H0; [exact H0|]. cbn [fold_left]. apply IH; [intros q Hq; apply Hl; now right|].
+      apply mark_analyse_ok; [apply Hl; now left|exact H0]. }
+    intros H. apply G; [|exact H]. intros p Hp. unfold plugin_dir_files in Hp. apply filter_In in Hp as [Hp _]. now apply file_exists_in.
+  Qed.
+  Lemma resolve_entry_exists base m p : resolve_entry fd base m = Some p -> file_exists p = true.
+  Proof.
+    unfold resolve_entry. destruct (existsb _ _); [discriminate|].
+    destruct (rev _) as [|last rinit]; [discriminate|].
+    match goal with |- (if ?c then _ else _) = _ -> _ => destruct c eqn:E1 end; [intros H; now injection H as <-|].
+    match goal with |- (if ?c then _ else _) = _ -> _ => destruct c eqn:E2 end; [|discriminate].
+    intros H. injection H as <-. now apply andb_prop in E2 as [_ E2].
+  Qed.
+  Lemma load_entries_ok d st : phase_ok st -> phase_ok (load_entries fd sp dists pths d st).
+  Proof.
+    unfold load_entries. destruct (di_entry d) as [content|]; [|auto].
+    generalize (parse_pytest11_entry_points content) as l. intros l. revert st. induction l as [|kv l IH]; intros st H; [exact H|].
+    cbn [fold_left]. apply IH.
+    destruct (match resolve_entry fd (sp_path sp) (snd kv) with Some p => Some p | None => _ end) as [[|n dir]|] eqn:E; try exact H.
+    assert (Hex : file_exists (n :: dir) = true).
+    { destruct (resolve_entry fd (sp_path sp) (snd kv)) as [p|] eqn:E1.
+      - injection E as <-. eapply resolve_entry_exists; eauto.
+      - apply first_some_some in E as [r [_ Hr]]. eapply resolve_entry_exists; eauto. }
+    destruct (String.eqb n init_py); [now apply scan_plugin_dir_ok|].
+    unfold scan_plugin_file. destruct (suffixb ".py" n); [now apply mark_analyse_ok|exact H].
+  Qed.
+  Lemma venv_scan_ok st : phase_ok st -> phase_ok (venv_scan fd sp dists pths st).
+  Proof.
+    unfold venv_scan. destruct sp as [spp|] eqn:Esp; [|auto]. rewrite <- Esp. intros H.
+    assert (H1 : phase_ok (if dir_exists fd ("_pytest"%string :: spp) then scan_plugin_dir fd ("_pytest"%string :: spp) st else st))
+      by (destruct (dir_exists fd _); [now apply scan_plugin_dir_ok|exact H]).
+    revert H1. generalize (if dir_exists fd ("_pytest"%string :: spp) then scan_plugin_dir fd ("_pytest"%string :: spp) st else st) as st1.
+    generalize dists at 2 as l. induction l as [|d l IH]; intros st1 H1; [exact H1|]. cbn [fold_left]. apply IH.
+    destruct (tsuffix dist_info_sfx (di_name d) || tsuffix egg_info_sfx (di_name d)); [now apply load_entries_ok|exact H1].
+  Qed.
+  Lemma phase2_ok selected :
+    (forall p, In p selected -> (match p with n :: _ => is_test_file_name n | [] => false end) = true) ->
+    phase_ok (fold_left (fun st p => analyse p st) selected (mk_sst [] [])).
+  Proof.
+    intros Hsel.
+    assert (G : forall l st0, (forall p, In p l -> (match p with n :: _ => is_test_file_name n | [] => false end) = true) ->
+                              phase_ok st0 -> phase_ok (fold_left (fun st p => analyse p st) l st0)).
+    { induction l as [|p l IH]; intros st0 Hl H0; [exact H0|]. cbn [fold_left]. apply IH; [intros q Hq; apply Hl; now right|].
+      destruct H0 as [H1 H2 H3]. constructor.
+      - intros q Hq. apply analyse_cached in Hq as [Hq|[-> Hq]]; [now apply H1|exact Hq].
+      - intros q Hq. rewrite analyse_plugin in Hq. apply analyse_cached. left. now apply H2.
+      - intros q Hq. rewrite analyse_plugin. apply analyse_cached in Hq as [Hq|[-> _]]; [now apply H3|]. left. apply Hl. now left. }
+    apply G; [exact Hsel|]. constructor; intros q [].
+  Qed.
+
+  (** the whole scan, end to end: for the files phase 1 selected (test / conftest names), the
+      scan terminates, analyses exactly what is reachable from the selected files and the
+      entry-point plugin files, and marks exactly the plugin closure *)
+  Theorem scan_end_to_end selected :
+    (forall p, In p selected -> (match p with n :: _ => is_test_file_name n | [] => false end) = true) ->
+    let st3 := venv_scan fd sp dists pths (fold_left (fun st p => analyse p st) selected (mk_sst [] [])) in
+    exists st', import_scan_opt fd sp dists pths st3 = Some st'
+                /\ (forall q, In q (ss_cached st') <-> reach fd sp dists pths (seed_files fd sp dists pths st3) q)
+                /\ (forall q, In q (ss_plugin st') <-> plugin_reach (ss_plugin st3) q).
+  Proof.
+    intros Hsel st3.
+    pose proof (venv_scan_ok _ (phase2_ok selected Hsel)) as [H1 H2 H3]. fold st3 in H1, H2, H3.
+    destruct (import_scan_opt fd sp dists pths st3) as [st'|] eqn:E; [|exfalso; now apply (import_scan_converges st3)].
+    exists st'. split; [reflexivity|].
+    assert (Hseeds : forall q, In q (ss_cached st3) -> In q (seed_files fd sp dists pths st3)).
+    { intros q Hq. unfold seed_files. apply filter_In. split; [exact Hq|].
+      destruct (H3 q Hq) as [H|H]; [now rewrite H|]. apply mem_path_in in H. rewrite H. now rewrite !orb_true_r. }
+    split; [now apply (import_scan_reaches_closure st3 st' H1 Hseeds H2 E)|now apply (import_scan_plugin_closure st3 st' H1 Hseeds H2 E)].
+  Qed.
+
   (** ** classification: third-party by where the source lives *)
   Theorem third_party_table F :
     third_party fd ws sp dists pths F
